@@ -8,7 +8,7 @@ from translate import TranslateError, HEADER, read
 FILE = "include/iora/core/blocking_queue.hpp"
 METHODS = [("queue", 2), ("tryQueue", 4), ("dequeue", 2), ("tryDequeue", 1), ("close", 1), ("isClosed", 1), ("size", 1),
            ("empty", 1), ("full", 1), ("capacity", 1), ("~BlockingQueue", 1)]
-SHARED = ["_mutex", "_condNotEmpty", "_condNotFull", "_queue", "_closed"]
+SHARED = ["_mutex", "_condNotEmpty", "_condNotFull", "_queue", "_closed", "_maxSize"]
 
 TOK = re.compile(r"""
    (?P<guard>std::(?:unique_lock|lock_guard|scoped_lock)\s*<[^>]*>\s*(?P<gname>\w+)\s*[\({]\s*(?P<gm>_\w+)\s*[\)}])
@@ -20,7 +20,8 @@ TOK = re.compile(r"""
  | (?P<rclosed>\b_closed\s*\.\s*load\s*\()
  | (?P<push>\b_queue\s*\.\s*(?:push_back|emplace_back)\s*\()
  | (?P<pop>\b_queue\s*\.\s*pop_front\s*\()
- | (?P<rqueue>\b_queue\s*\.\s*(?:size|empty|front)\s*\(\s*\))
+ | (?P<rqueue>\b_queue\s*\.\s*(?P<rq>size|empty|front)\s*\(\s*\))
+ | (?P<rmax>\b_maxSize\b)
  | (?P<callclose>(?<![\w.>])close\s*\(\s*\))
  | (?P<open>\{) | (?P<close>\})
 """, re.X)
@@ -62,7 +63,74 @@ def method_body(src, name, nth):
     return hits[nth]
 
 
+def control_ranges(body, where):
+    """[(start, end, tag)] of the text ranges controlled by if/else/loops/lambdas: an event inside one of them is tagged with it.
+    `if (c) stmt;` without braces is covered too; `?:`, `&&`, `||`, `switch`, `goto`, `try` in a method body are unknown shapes."""
+    out = []
+    for m in re.finditer(r"\b(switch|goto|try|do)\b", body):
+        raise TranslateError("%s: `%s` statement in a BlockingQueue method (control flow the skeleton does not describe)" % (where, m.group(1)))
+    for m in re.finditer(r"\b(if|while|for)\s*\(", body):
+        i = m.end() - 1
+        depth = 0
+        j = i
+        while j < len(body):
+            if body[j] == "(":
+                depth += 1
+            elif body[j] == ")":
+                depth -= 1
+                if depth == 0:
+                    break
+            j += 1
+        kind = m.group(1)
+        out.append((i, j, kind + "-cond"))
+        k = j + 1
+        while k < len(body) and body[k] in " \t\r\n":
+            k += 1
+        if k < len(body) and body[k] == "{":
+            e = cxxscan.match_brace(body, k)
+        else:
+            e = body.find(";", k)
+            if e < 0:
+                raise TranslateError("%s: unterminated statement after `%s (...)`" % (where, kind))
+        out.append((k, e, kind + "-body"))
+    for m in re.finditer(r"\belse\b", body):
+        k = m.end()
+        while k < len(body) and body[k] in " \t\r\n":
+            k += 1
+        if body[k:k + 2] == "if":
+            continue
+        e = cxxscan.match_brace(body, k) if body[k] == "{" else body.find(";", k)
+        out.append((k, e, "else-body"))
+    for m in re.finditer(r"\[[^\[\]]*\]\s*\([^()]*\)\s*(?:mutable\s*)?(?:->\s*[\w:]+\s*)?\{", body):
+        out.append((m.end() - 1, cxxscan.match_brace(body, m.end() - 1), "lambda"))
+    return out
+
+
+def guard_of(pos, ranges):
+    tags = [t for a, b, t in sorted(ranges) if a <= pos <= b]
+    return "/".join(tags)
+
+
+def plain_statement(body, pos, where, what):
+    """an effect (notify / push / pop) must START its statement: nothing but white space since the previous `;`, `{` or `}` -
+    no `cond && …`, `c ? … : …`, `return …,` around it"""
+    k = pos - 1
+    while k >= 0 and body[k] in " \t\r\n":
+        k -= 1
+    if k >= 0 and body[k] not in ";{}":
+        # `if (c) effect;` without braces: the closing parenthesis of the condition
+        if body[k] == ")":
+            return
+        raise TranslateError("%s: %s is not a statement of its own: %r" % (where, what, body[max(0, pos - 40):pos + 30].strip()))
+
+
 def skeleton(body, where):
+    ev3 = skeleton3(body, where)
+    return ev3
+
+
+def skeleton3(body, where):
+    ranges = control_ranges(body, where)
     ev = []
     depth = 0
     guards = []   # [name, mutex, depth, held]
@@ -74,57 +142,64 @@ def skeleton(body, where):
         elif m.group("close"):
             for g in guards:
                 if g[2] == depth and g[3]:
-                    ev.append(("unlock", g[1], ",".join(sorted({h[1] for h in guards if h[3]}))))
+                    ev.append(("unlock", g[1], ",".join(sorted({h[1] for h in guards if h[3]})), guard_of(m.start(), ranges)))
                     g[3] = False
             guards = [g for g in guards if g[2] < depth]
             depth -= 1
         elif m.group("guard"):
             guards.append([m.group("gname"), m.group("gm"), depth, True])
-            ev.append(("lock", m.group("gm"), held))
+            ev.append(("lock", m.group("gm"), held, guard_of(m.start(), ranges)))
             covered.append(m.start("gm"))
         elif m.group("unlock"):
             hit = [g for g in guards if g[0] == m.group("uname")]
             if not hit:
                 raise TranslateError("%s: %s.unlock() on an unknown guard" % (where, m.group("uname")))
             for g in hit:
-                ev.append(("unlock", g[1], held))
+                plain_statement(body, m.start(), where, "unlock()")
+                ev.append(("unlock", g[1], held, guard_of(m.start(), ranges)))
                 g[3] = False
         elif m.group("relock"):
             hit = [g for g in guards if g[0] == m.group("rname")]
             if not hit:
                 raise TranslateError("%s: %s.lock() on an unknown guard" % (where, m.group("rname")))
             for g in hit:
-                ev.append(("lock", g[1], held))
+                ev.append(("lock", g[1], held, guard_of(m.start(), ranges)))
                 g[3] = True
         elif m.group("wait"):
             hit = [g for g in guards if g[0] == m.group("wl")]
             if not hit:
                 raise TranslateError("%s: %s.%s(%s…): lock argument is not a known guard" % (where, m.group("cv"), m.group("wk"), m.group("wl")))
-            ev.append((m.group("wk"), m.group("cv"), held))
+            ev.append((m.group("wk"), m.group("cv"), held, guard_of(m.start(), ranges)))
             covered.append(m.start("cv"))
         elif m.group("notify"):
-            ev.append(("notify_" + m.group("nk"), m.group("ncv"), held))
+            plain_statement(body, m.start(), where, "notify")
+            ev.append(("notify_" + m.group("nk"), m.group("ncv"), held, guard_of(m.start(), ranges)))
             covered.append(m.start("ncv"))
         elif m.group("wclosed"):
-            ev.append(("write", "_closed", held))
+            ev.append(("write", "_closed", held, guard_of(m.start(), ranges)))
             covered.append(m.start())
         elif m.group("rclosed"):
-            ev.append(("read", "_closed", held))
+            ev.append(("read", "_closed", held, guard_of(m.start(), ranges)))
             covered.append(m.start())
         elif m.group("push"):
-            ev.append(("push", "_queue", held))
+            plain_statement(body, m.start(), where, "push_back")
+            ev.append(("push", "_queue", held, guard_of(m.start(), ranges)))
             covered.append(m.start())
         elif m.group("pop"):
-            ev.append(("pop", "_queue", held))
+            plain_statement(body, m.start(), where, "pop_front")
+            ev.append(("pop", "_queue", held, guard_of(m.start(), ranges)))
             covered.append(m.start())
         elif m.group("rqueue"):
-            ev.append(("read", "_queue", held))
+            ev.append((m.group("rq"), "_queue", held, guard_of(m.start(), ranges)))
+            covered.append(m.start())
+        elif m.group("rmax"):
+            ev.append(("read", "_maxSize", held, guard_of(m.start(), ranges)))
             covered.append(m.start())
         elif m.group("callclose"):
-            ev.append(("call", "close", held))
+            ev.append(("call", "close", held, guard_of(m.start(), ranges)))
     for g in guards:      # end of the function body = scope exit of the remaining guards
         if g[3]:
-            ev.append(("unlock", g[1], ",".join(sorted({h[1] for h in guards if h[3]}))))
+            ev.append(("unlock", g[1], ",".join(sorted({h[1] for h in guards if h[3]})), ""))
             g[3] = False
     for v in SHARED:
         for m in re.finditer(r"(?<![\w])%s\b" % re.escape(v), body):
@@ -149,7 +224,7 @@ def gen(repo):
         else:
             raise TranslateError("BlockingQueue::%s has more than %d definition(s)" % (name, count))
     # EVERY member function with a body must be known: a new (public) method may touch the state from any thread and is not modelled
-    known = {n for n, _ in METHODS} | {"BlockingQueue"}
+    known = {n for n, _ in METHODS} | {"BlockingQueue", "clampTimeout"}   # clampTimeout: static, pure (shape pinned below)
     for m in re.finditer(r"(?<![\w~:.>])(~?\w+)\s*\([^()]*\)\s*(?:const\s*)?(?:noexcept\s*)?(?::[^{};]*)?\{", src):
         fname = m.group(1)
         if fname in known or fname in ("if", "for", "while", "switch", "catch", "return", "sizeof"):
@@ -160,21 +235,42 @@ def gen(repo):
         if k >= 0 and src[k] in "])":      # a lambda `[this]() {` or a call used as a condition
             continue
         raise TranslateError("BlockingQueue::%s is not a known member function (every method must be part of the model)" % fname)
+    # timed waits: the caller's timeout goes through clampTimeout() (fix FC10a) - `now() + timeout` inside wait_for overflows a signed
+    # 64-bit nanosecond count for milliseconds::max()/min() - and clampTimeout has the modelled shape
+    flat = " ".join(re.sub(r"//[^\n]*", " ", src).split())
+    for m in re.finditer(r"\.wait_for\s*\(\s*(\w+)\s*,\s*([^,]+),", flat):
+        if m.group(2).strip() != "clampTimeout(timeout)":
+            raise TranslateError("BlockingQueue: wait_for(%s, %s, ...) is handed the caller's timeout unclamped: wait_for's `now() + timeout` "
+                                 "overflows (undefined behaviour, deadline in the past) for milliseconds::max()/min()" % (m.group(1), m.group(2).strip()))
+    for m in re.finditer(r"\.wait_until\s*\(", flat):
+        raise TranslateError("BlockingQueue: wait_until is not part of the modelled class")
+    if not re.search(r"static std::chrono::milliseconds clampTimeout\(std::chrono::milliseconds timeout\) \{ "
+                     r"constexpr std::chrono::milliseconds kMaxWait\{std::chrono::hours\{24 \* 365 \* 100\}\}; "
+                     r"if \(timeout > kMaxWait\) \{ return kMaxWait; \} "
+                     r"if \(timeout < std::chrono::milliseconds::zero\(\)\) \{ return std::chrono::milliseconds::zero\(\); \} "
+                     r"return timeout; \}", flat):
+        raise TranslateError("BlockingQueue::clampTimeout is missing or no longer `min(max(timeout, 0), 100 years)`")
     # `_maxSize` is read without the mutex (capacity(), and inside the predicates): sound only because it never changes
     if not re.search(r"\bconst\s+std::size_t\s+_maxSize\s*;", src):
         raise TranslateError("BlockingQueue::_maxSize is no longer declared `const std::size_t _maxSize;` (it is read without synchronisation)")
     for m in re.finditer(r"\b_maxSize\s*(=(?!=)|\+\+|--|\+=|-=|\*=|/=)", src):
         raise TranslateError("BlockingQueue::_maxSize is written: %r" % src[max(0, m.start() - 30):m.end() + 20].strip())
-    decls = re.findall(r"^\s*(?:mutable\s+)?(?:const\s+)?[\w:<>\s]+?\b(_\w+)\s*;", src, re.M)
+    decls = []
+    for line in src.splitlines():
+        dm = re.match(r"\s*(?:mutable\s+)?(?:const\s+)?[\w:<>]+(?:\s+[\w:<>]+)*\s+(_\w+)\s*;\s*$", line)
+        if dm and not re.match(r"\s*(return|delete|throw|goto)\b", line):
+            if dm.group(1) in decls:
+                raise TranslateError("BlockingQueue: member %s declared twice" % dm.group(1))
+            decls.append(dm.group(1))
     expected_members = ["_mutex", "_condNotEmpty", "_condNotFull", "_queue", "_maxSize", "_closed"]
     if sorted(set(decls)) != sorted(expected_members):
         raise TranslateError("BlockingQueue data members changed: %s (expected %s)" % (sorted(set(decls)), sorted(expected_members)))
     t = HEADER % FILE
     t += "namespace Iora.Gen.BqSkel\n"
     t += "/-- data members (checked: `_maxSize` is `const std::size_t` and never assigned) -/\n"
-    t += "def members : List String := [%s]\n" % ", ".join('"%s"' % x for x in expected_members)
-    t += "/-- per method (name#overload, textual order): (event, object, mutexes held) -/\n"
-    t += "def skeleton : List (String × List (String × String × String)) := [\n"
-    t += ",\n".join('  ("%s", [%s])' % (w, ", ".join('("%s", "%s", "%s")' % e for e in evs)) for w, evs in rows)
+    t += "def members : List String := [%s]\n" % ", ".join('"%s"' % x for x in decls)
+    t += "/-- per method (name#overload, textual order): (event, object, mutexes held, enclosing control: `if-cond`, `if-body`, `else-body`,\n`while-body`, `lambda` …, outermost first, empty = unconditional at function level) -/\n"
+    t += "def skeleton : List (String × List (String × String × String × String)) := [\n"
+    t += ",\n".join('  ("%s", [%s])' % (w, ", ".join('("%s", "%s", "%s", "%s")' % e for e in evs)) for w, evs in rows)
     t += "]\nend Iora.Gen.BqSkel\n"
     return "IoraModel/Gen/BqSkel.lean", t
